@@ -349,7 +349,9 @@ fn main() {
             let mut data = vec![0i64; nl * ll];
             for (j, lane) in lanes.iter().enumerate() {
                 for (k, &fi) in lane.iter().enumerate() {
-                    data[fi] = (((k * (7 + 2 * j) + 3 * j) % ll) as i64) * 10 + 100_000 * (nl - j) as i64;
+                    // disjoint value ranges per lane; later lanes hold larger values for axis 0 and smaller ones for axis 1
+                    let rank = if axis == 0 { j + 1 } else { nl - j };
+                    data[fi] = (((k * (7 + 2 * j) + 3 * j) % ll) as i64) * 10 + 100_000 * rank as i64;
                 }
             }
             let mut qs: Vec<f64> = (0..nq).map(|i| i as f64 / (nq - 1) as f64).collect();
